@@ -1,6 +1,6 @@
 (* C01 — Generated NumPy rhs computes exactly the derivatives the model text defines.
    Theorems only; every proof is [exact <lemma of the development>]. *)
-From GX Require Import Base Expr Topo KahnSound Ode OrderSound Target Sem Codegen Load Valid Run Carriers Examples.
+From GX Require Import Base Expr Topo KahnSound Ode OrderSound Target Sem Codegen Load Valid MirrorValid Run Carriers Examples.
 Open Scope string_scope.
 Open Scope list_scope.
 
@@ -61,10 +61,44 @@ Theorem C01_statement_order_defines_before_use :
 Proof. exact sorted_names_sound. Qed.
 Print Assumptions C01_statement_order_defines_before_use.
 
+(* the mirror of the generator is a verified compiler: for every well-formed model (wf_gen, a boolean
+   the harness evaluates on the mirror of every model the implementation generated code for) and
+   both settings of remove_unused, the rhs it generates passes the validator, runs to completion
+   and returns the documented meaning of every derivative in its state's slot.  The implementation's
+   code is compared with this function statement by statement on every case. *)
+Theorem C01_mirror_rhs_is_correct_for_every_well_formed_model :
+  forall (T : Type) (N : NumOps T) (o : ode) ru order ss f (inp : inputs T),
+    sorted_states o = Some ss -> wf_gen o ss false = true ->
+    gen_rhs o ru order = Some f ->
+    sizes_ok o ss inp ->
+    valid_rhs o ss inp false f = true
+    /\ exists out,
+        exec N f false inp = Some out
+        /\ length out = length ss
+        /\ forall i s, nth_error ss i = Some s ->
+             exists v, nth_error out i = Some v /\ Sem N o ss inp false (deriv_name_of s) v.
+Proof. exact @mirror_rhs_correct. Qed.
+Print Assumptions C01_mirror_rhs_is_correct_for_every_well_formed_model.
+
+Theorem C01_mirror_monitor_is_correct_for_every_well_formed_model :
+  forall (T : Type) (N : NumOps T) (o : ode) ru order ss ord f (inp : inputs T),
+    sorted_states o = Some ss -> sorted_names o false = Some ord -> wf_gen o ss false = true ->
+    gen_monitor o ru order = Some f ->
+    sizes_ok o ss inp ->
+    valid_named o ss inp false ord f = true
+    /\ exists out,
+        exec N f false inp = Some out
+        /\ length out = length ord
+        /\ forall i n, nth_error ord i = Some n ->
+             exists v, nth_error out i = Some v /\ Sem N o ss inp false n v.
+Proof. exact @mirror_monitor_correct. Qed.
+Print Assumptions C01_mirror_monitor_is_correct_for_every_well_formed_model.
+
 (* non-vacuity: the mirror's rhs for the example model (two components, unused intermediate,
    conditional, chain) is accepted, with and without removal of unused variables *)
 Example C01_example_is_accepted :
   valid_rhs ex_ode ex_ss ex_inp false (ex_rhs false) = true
   /\ valid_rhs ex_ode ex_ss ex_inp false (ex_rhs true) = true
-  /\ reserved_free ex_ode ex_inp false = true.
+  /\ reserved_free ex_ode ex_inp false = true
+  /\ wf_gen ex_ode ex_ss false = true.
 Proof. vm_compute. repeat split. Qed.
